@@ -184,6 +184,9 @@ def run(ctx):
     # ---------------- R16.5
     lazy_library(ctx)
 
+    # ---------------- R16.6
+    product_rewind(ctx)
+
 
 def lazy_library(ctx):
     """R16.5: library functions written in the language that take a generator and return a generator stay lazy in it: their body
@@ -242,3 +245,83 @@ def lazy_library(ctx):
         for g, c in hits:
             r5.fail('include/%s/%s' % (name, c), 'src/builtin/include.rs:%d' % line, 'the library function %s returns a generator but applies %s() to its generator parameter `%s`: the whole source is consumed when the result is built, so an infinite (or long) source is never lazy' % (name, c, g))
     r5.need(4)
+
+
+def product_rewind(ctx):
+    """R16.6 (cartesian product and every other place where a vector of part iterators is advanced in a loop): when a part's
+    iterator runs out (`iters[i].next()` is None) inside the loop over the parts, that part is rewound -- `iters[i]` is assigned a
+    fresh iterator -- before the loop goes on to the next part.  A deferred rewind is lost as soon as two parts run out in the
+    same step (three or more parts), and the stream then skips and repeats elements."""
+    mir = ctx.mir
+    r6 = ctx.rule('R16.6', 'a part iterator that runs out inside the loop over the parts is rewound before the loop continues')
+    for b in mir.bodies:
+        if b.file != 'src/builtin/generators.rs':
+            continue
+        idxmut = {t['dest']['l']: (bb, t) for bb, t in b.calls() if strip_generics(t.get('callee') or t.get('decl') or '').endswith('IndexMut>::index_mut') and not t['dest']['p']}
+        if not idxmut:
+            continue
+
+        def vec_of(local):
+            """the vector an index_mut result points into (the place of the receiver)"""
+            bb, t = idxmut[local]
+            p = op_place(t['args'][0])
+            k, v = mirq.chase(b, p['l']) if p is not None and not p['p'] else (None, None)
+            if k == 'rv':
+                pl = v[2]['rv'].get('place')
+                return mirq._place_key(pl) if pl else None
+            return None
+        stores = {}
+        for i, j, s in b.stmts():
+            if s['k'] == 'assign' and s['place']['p'] == ['*'] and s['place']['l'] in idxmut:
+                stores.setdefault(vec_of(s['place']['l']), set()).add(i)
+        for bb, t in b.calls():
+            nm = strip_generics(t.get('callee') or t.get('decl') or '')
+            if not nm.endswith('::next') or 'Box' not in nm or t.get('target') is None:
+                continue
+            rp = op_place(t['args'][0]) if t['args'] else None
+            root = None
+            cur = rp['l'] if rp is not None else None
+            for _ in range(4):
+                ds = b.defs().get(cur, []) if cur is not None else []
+                if cur in idxmut:
+                    root = cur
+                    break
+                if len(ds) == 1 and ds[0][0] == 'stmt' and ds[0][3]['rv']['k'] in ('ref', 'use'):
+                    pl = ds[0][3]['rv'].get('place') or op_place(ds[0][3]['rv']['op'])
+                    cur = pl['l'] if pl is not None else None
+                else:
+                    break
+            if root is None:
+                continue
+            # only inside a loop: the call block lies on a cycle
+            if bb not in b.reachable(t['target']):
+                continue
+            vec = vec_of(root)
+            # the switch on the Option returned by next(): the None edge
+            sw = t['target']
+            tm = b.term(sw)
+            if tm['k'] != 'switch':
+                continue
+            none_t = [x for v, x in tm['targets'] if v == '0']
+            if not none_t:
+                continue
+            # loop headers: blocks that dominate the call and can be reached again from it
+            heads = [h for h in b.dominators().get(bb, ()) if h != bb and h in b.reachable(t['target']) and b.term(h)['k'] == 'call' and strip_generics(b.term(h).get('callee') or b.term(h).get('decl') or '').endswith('::next')]
+            if not heads:
+                continue
+            avoid = stores.get(vec, set())
+            seen = set()
+            todo = [none_t[0]]
+            while todo:
+                x = todo.pop()
+                if x in seen or x in avoid or b.is_cleanup(x):
+                    continue
+                seen.add(x)
+                todo.extend(b.succ(x))
+            bad = [h for h in heads if h in seen]
+            # a None that ends the whole stream (the first part running out) returns instead of looping: fine
+            ok = not bad
+            r6.inst({'fn': b.nid, 'site': mirq.site(b, bb), 'rewound_before_the_loop_continues': ok}, ok=ok, kind=(b.nid, bb))
+            if not ok:
+                r6.fail('%s/deferred-rewind' % strip_generics(mir.enclosing_fn(b)), mirq.site(b, bb), 'when this part iterator runs out the loop over the parts can continue without the part having been given a fresh iterator: with three or more parts two of them run out in the same step and only one rewind survives')
+    r6.need(1)
